@@ -325,6 +325,14 @@ func genRich(t *core.Tape, tier, prop string) *Scenario {
 	} else {
 		sc.Notes["ok_"+p.Kind.String()]++
 	}
+	if prop == "C11" && p.HErr != nil && (p.Kind == KServer || p.Kind == KBidi) && len(p.RespMsgs) > 0 && t.Bool(1, 8, "first.send.fails") {
+		// the handler's first response message cannot be marshalled (fault at
+		// the Codec seam), the handler carries on and ends with its error:
+		// nothing has been sent, and the error's metadata must still arrive
+		sc.Handlers[0].FailCodec = true
+		p.RespMsgs[0] = append(append([]byte(nil), marshalFailMarker...), p.RespMsgs[0]...)
+		sc.Notes["first_send_fails_in_codec"]++
+	}
 	if prop == "C11" && p.Kind == KUnary && c.Proto == PConnect && p.HErr != nil && !p.HErr.Plain && p.HErr.CtxKind == 0 && !p.InterceptorErrAfter && t.Bool(1, 5, "error.body.over.read.limit") {
 		// the client's read limit is smaller than the error body: the error
 		// cannot be decoded, but the headers (and with them the metadata) have
